@@ -43,6 +43,7 @@ fn main() {
     let mut rng = Rng::new(seed);
     let mut out: Vec<Violation> = Vec::new();
     let (mut systems, mut runs, mut ok_runs, mut dnc_runs, mut tol_checks, mut multi, mut traced_runs) = (0, 0, 0, 0, 0, 0, 0);
+    let mut tol_excluded = 0usize;
     for i in 0..n {
         let mut sys = match i % 4 {
             0 => gen_planted(&mut rng, 6, 0.3, &SHAPES),
@@ -127,13 +128,11 @@ fn main() {
                         for (cj, r2) in results.iter().enumerate().take(ci) {
                             let same = matches!(r2, Err(f2) if matches!(f2.error, NonLinearSystemError::DidNotConverge));
                             if !same {
-                                // under the smaller cap a lower level may have run out of iterations and an
-                                // earlier level been returned as Ok: that is the multi-level finding again
-                                let sig = if levels > 1 {
-                                    "multi-level-and-a-level-did-not-converge-at-the-smaller-cap"
-                                } else {
-                                    "did-not-converge-but-smaller-cap-differs"
-                                };
+                                // an Err is only ever returned for the FIRST level (later levels' errors are
+                                // swallowed), so this direction holds for any number of levels (theorem
+                                // solve_cap_monotone_err) and is never the multi-level finding F11
+                                let _ = levels;
+                                let sig = "did-not-converge-but-smaller-cap-differs";
                                 out.push(Violation {
                                     property: "C14",
                                     what: format!(
@@ -201,7 +200,28 @@ fn main() {
                 s.max_iterations = 200;
                 s.convergence_tolerance = tol;
                 s.step_tolerance = 0.0;
-                if let Ok(o) = solve(&s.reqs, s.guesses.clone(), s.config()) {
+                let tight = solve(&s.reqs, s.guesses.clone(), s.config());
+                match &tight {
+                    Ok(o) if o.is_satisfied() => {}
+                    other => {
+                        // a solvable sketch started near its solution: with 200 rounds and a tolerance the
+                        // coordinates can resolve, the tightened solve must still succeed and satisfy
+                        // (unless the independent reference iteration cannot do it either)
+                        let x0: Vec<f64> = s.guesses.iter().map(|g| g.1).collect();
+                        if reference_gauss_newton(&s.reqs, &x0, tol.max(1e-10), 12).is_some() {
+                            out.push(Violation {
+                                property: "C14",
+                                what: format!("tightening the convergence tolerance to {tol} (step test disabled, cap 200) makes a solvable sketch started near its solution fail or stay unsatisfied: {}", describe(other)),
+                                signature: "tightened-tolerance-breaks-the-solve".into(),
+                                system: Some(s.clone()),
+                                extra: String::new(),
+                            });
+                        } else {
+                            tol_excluded += 1;
+                        }
+                    }
+                }
+                if let Ok(o) = &tight {
                     tol_checks += 1;
                     if o.is_satisfied() {
                         for r in &s.reqs {
@@ -232,7 +252,7 @@ fn main() {
         }
     }
     println!(
-        "STATS {{\"systems\": {systems}, \"caps\": {}, \"runs\": {runs}, \"ok_runs\": {ok_runs}, \"did_not_converge_runs\": {dnc_runs}, \"multi_level_systems\": {multi}, \"tolerance_checks\": {tol_checks}, \"round_count_runs\": {traced_runs}, \"violations\": {}}}",
+        "STATS {{\"systems\": {systems}, \"caps\": {}, \"runs\": {runs}, \"ok_runs\": {ok_runs}, \"did_not_converge_runs\": {dnc_runs}, \"multi_level_systems\": {multi}, \"tolerance_checks\": {tol_checks}, \"tolerance_cases_the_reference_cannot_solve_either\": {tol_excluded}, \"round_count_runs\": {traced_runs}, \"violations\": {}}}",
         CAPS.len(),
         out.len()
     );
